@@ -41,6 +41,9 @@ CLAUSES = {
     "ResumedSameFinalStatus": ("C14",),
     "ResumedAxisHasEventTimes": ("C14",),
     "ResumedSameSuccess": ("C14",),
+    "LimitedStateWithinLimits": ("C09",),
+    "PeggedStateHasZeroDerivative": ("C09",),
+    "LimiterFlagsOneHot": ("C09",),
     "RowPerKeptStep": ("C15",),
     "MemoryRowsAreSolverValues": ("C15",),
     "OutputFilesWritten": ("C15",),
